@@ -230,7 +230,12 @@ func readFileHeader(r Reader) (fh FileHeader, err error) {
 			break
 		}
 		if count < 0 {
-			return fh, fmt.Errorf("negative block size not supported in file header")
+			// As for any Avro map, a negative count means the block's size
+			// in bytes follows, and the count is the absolute value.
+			if _, err := binary.ReadVarint(r); err != nil {
+				return fh, fmt.Errorf("failed to read size of map block. %w", err)
+			}
+			count = -count
 		}
 
 		for ; count > 0; count-- {
